@@ -1008,3 +1008,132 @@ fn num_add_rational_i_body() {
     core::mem::forget(r);
     core::mem::forget(q);
 }
+
+// ------------------------------------------------------------------ (/ x) and (expt q e)
+// `Ratio::new` = reduction (gcd loops) + sign normalisation.  In the two harnesses below the operands are coprime,
+// so the reduction is the identity; the sign normalisation is kept exactly as num-rational does it
+// (`0 - numer`, `0 - denom`: this is where the most negative denominator overflows).
+fn ratio_new_sign_only_stub<T: Clone + num_integer::Integer>(numer: T, denom: T) -> Ratio<T> {
+    if denom < T::zero() {
+        Ratio::new_raw(T::zero() - numer, T::zero() - denom)
+    } else {
+        Ratio::new_raw(numer, denom)
+    }
+}
+
+// (/ x) for EVERY machine integer: an error for 0, the integer for +-1, otherwise the rational sign(x)/|x| in
+// canonical form -- as a small rational when |x| fits 31 bits, as a big rational beyond
+#[kani::proof]
+#[kani::unwind(8)]
+#[kani::stub(std::rt::thread_cleanup, noop)]
+#[kani::stub(alloc::fmt::format, fmt_stub)]
+#[kani::stub(core::arch::x86_64::_addcarry_u64, addcarry_stub)]
+#[kani::stub(core::arch::x86_64::_subborrow_u64, subborrow_stub)]
+#[kani::stub(num_rational::Ratio::new, ratio_new_sign_only_stub)]
+fn num_recip_i() {
+    tag_init();
+    num_recip_i_body();
+}
+fn num_recip_i_body() {
+    let x: isize = kani::any();
+    let args = [IntV(x)];
+    let r = divide_primitive(&args);
+    kani::cover!(x == i32::MIN as isize, "the most negative 32-bit integer");
+    kani::cover!(x > i32::MAX as isize, "beyond 32 bits");
+    kani::cover!(x == -1, "minus one");
+    let ax: i128 = if x < 0 { -(x as i128) } else { x as i128 };
+    let sg: i64 = if x < 0 { -1 } else { 1 };
+    match &r {
+        Err(_) => {
+            vassert!(x == 0, "the reciprocal of a non-zero integer is an error");
+        }
+        Ok(IntV(v)) => {
+            vassert!(ax == 1 && *v as i128 == x as i128, "the reciprocal of an integer other than +-1 came back as an integer");
+        }
+        Ok(Rational(q)) => {
+            vassert!(ax > 1 && ax <= i32::MAX as i128, "small rational for a denominator that does not fit 31 bits");
+            vassert!(*q.numer() as i64 == sg && *q.denom() as i128 == ax, "the reciprocal has the wrong value or a negative denominator");
+        }
+        Ok(BigRational(q)) => {
+            vassert!(ax > i32::MAX as i128, "big rational for a reciprocal that fits the small form");
+            vassert!(q.numer().to_i64() == Some(sg) && q.denom().to_i128() == Some(ax), "the (big) reciprocal has the wrong value or a negative denominator");
+        }
+        Ok(_) => {
+            vassert!(false, "the reciprocal of an integer is not an exact number");
+        }
+    }
+    core::mem::forget(r);
+    core::mem::forget(args);
+}
+
+// (expt n/d e): n in -3..3 (not 0), d in {2,3,5} coprime to n, e in -40..40.  Exact while both components of the
+// result fit 32 bits; beyond that the result has to leave the small form (its value there is num-bigint's, not checked).
+static mut RPOW_BIG: bool = false;
+// num-bigint's big-integer power is not executed: the stub records that the big path was taken and returns a
+// marker that cannot fit 32 bits (trusted: num-bigint / num-rational compute powers exactly)
+fn bigint_pow_biguint_ref_stub<'b>(this: BigInt, _e: &'b num_bigint::BigUint) -> BigInt {
+    unsafe { RPOW_BIG = true };
+    core::mem::forget(this);
+    BigInt::from(i128::MAX)
+}
+#[kani::proof]
+#[kani::unwind(8)]
+#[kani::stub(std::rt::thread_cleanup, noop)]
+#[kani::stub(alloc::fmt::format, fmt_stub)]
+#[kani::stub(core::arch::x86_64::_addcarry_u64, addcarry_stub)]
+#[kani::stub(core::arch::x86_64::_subborrow_u64, subborrow_stub)]
+#[kani::stub(num_rational::Ratio::new, ratio_new_sign_only_stub)]
+#[kani::stub(<num_bigint::BigInt as num_traits::Pow<&num_bigint::BigUint>>::pow, bigint_pow_biguint_ref_stub)]
+fn num_expt_rational_i() {
+    tag_init();
+    num_expt_rational_i_body();
+}
+fn num_expt_rational_i_body() {
+    let n: i32 = kani::any();
+    let d: i32 = kani::any();
+    let e: isize = kani::any();
+    kani::assume(n >= -3 && n <= 3 && n != 0);
+    kani::assume(d == 2 || d == 3 || d == 5);
+    kani::assume(n % d != 0);
+    kani::assume(e >= -40 && e <= 40);
+    let base = Rational(Rational32::new_raw(n, d));
+    let ex = IntV(e);
+    let r = expt(&base, &ex);
+    // exact components in 128 bits: |n|^|e| <= 3^40, d^|e| <= 5^40 < 2^93
+    let ae = if e < 0 { -e } else { e } as u32;
+    let mut pn: i128 = 1;
+    let mut pd: i128 = 1;
+    let mut i = 0;
+    while i < 40 {
+        if i < ae {
+            pn *= n as i128;
+            pd *= d as i128;
+        }
+        i += 1;
+    }
+    // numerator / denominator of the result, denominator positive
+    let (rn, rd) = if e >= 0 { (pn, pd) } else if pn < 0 { (-pd, -pn) } else { (pd, pn) };
+    let fits = rn >= i32::MIN as i128 && rn <= i32::MAX as i128 && rd <= i32::MAX as i128;
+    kani::cover!(!fits && e > 0, "positive power beyond 32 bits");
+    kani::cover!(!fits && e < 0, "negative power beyond 32 bits");
+    kani::cover!(fits && e < 0 && n < 0, "negative base, negative power, small");
+    match &r {
+        Ok(v) => {
+            if fits {
+                vassert!(!unsafe { RPOW_BIG }, "a power that fits the small rational form went through big rationals");
+                if rd == 1 {
+                    check_exact_int(v, rn);
+                } else {
+                    vassert!(matches!(v, Rational(q) if *q.numer() as i128 == rn && *q.denom() as i128 == rd), "the power of a rational has the wrong value");
+                }
+            } else {
+                vassert!(unsafe { RPOW_BIG }, "a power of a rational whose components leave 32 bits was not computed with big rationals");
+            }
+        }
+        Err(_) => {
+            vassert!(false, "expt of a non-zero rational and an integer returned an error");
+        }
+    }
+    core::mem::forget(r);
+    core::mem::forget(base);
+}
